@@ -1,5 +1,6 @@
 import U3.Base.Proto
 import U3.Model.Headers
+-- driver: hd
 /-! Line-protocol driver for `U3.Headers` (see DESIGN.md App. C). -/
 namespace U3.Drive.Headers
 open U3 U3.Proto U3.Headers
